@@ -176,8 +176,9 @@ class UpdateTaskState(Unit):
             task_id = T if kind != "engine" else ev_c
             has_items = kind == "item"
             may_complete = kind == "action" and ev_c in st.COMPLETED_STATUSES and rec_c is not None
-            has_retry = may_complete and e.branch(S.mk_bool("has_retry").z)
-            cases = WF_CASES if ctx.tier == "thorough" else [st.RUNNING, st.FAILED]
+            light = ctx.tier != "thorough" and cfg != "one"    # quick: retry / terminal-workflow variants on "one" only
+            has_retry = may_complete and not light and e.branch(S.mk_bool("has_retry").z)
+            cases = WF_CASES if ctx.tier == "thorough" else ([st.RUNNING] if light else [st.RUNNING, st.FAILED])
             wf_status = cases[e.choose(len(cases))]
 
             # ---------------- pre-state
